@@ -27,9 +27,10 @@ RULE = ('cases = (function, handle kind, commit flag, prior rows 0-3, new rows 0
 ASSUMPTIONS = ['sqlite3 only (no other driver in the sandbox)', 'a fresh sqlite3 connection observes committed state only',
                'rollback-journal mode: readers are not blocked by the caller\'s open write transaction on small tables']
 HANDLES = ['filename', 'connection', 'cursor', 'mkcurs']
+EXCS = sorted(probes.FAULT_TYPES)
 REQUIRED = (['handle:' + h for h in HANDLES] + ['fn:todb', 'fn:appenddb', 'commit:True', 'commit:False', 'fail:none', 'fail:header',
             'fail:first-row', 'fail:last-row', 'fail:exhaustion', 'rolled-back-load-left-previous-contents', 'commit=False-invisible-until-caller-commits',
-            'roundtrip-typed-cells', 'quoted-identifiers', 'sql-statements-traced'])
+            'roundtrip-typed-cells', 'quoted-identifiers', 'sql-statements-traced', 'schema-qualified'] + ['exc:' + e for e in EXCS])
 EXHAUSTIVE = {'quick': True, 'thorough': True}
 
 CELLS = [None, 0, 1, -5, 2 ** 40, 1.5, -0.25, '', 'a', "it's", 'say "hi"', 'Ã©â‚¬æ¼¢', 'x;y', b'', b'\x00\xff', 'NULL', ' lead']
@@ -37,18 +38,23 @@ CELLS = [None, 0, 1, -5, 2 ** 40, 1.5, -0.25, '', 'a', "it's", 'say "hi"', 'Ã©â‚
 
 def cases(ctx):
     maxp, maxn = ctx.pick(3, 4), ctx.pick(4, 6)
+    count = [0]
     for fn in ('todb', 'appenddb'):
         for handle in HANDLES:
             for commit in (True, False):
                 for p in range(0, maxp + 1):
                     for n in range(0, maxn + 1):
                         for fail in [None] + list(range(0, n + 2)):
-                            yield {'fn': fn, 'handle': handle, 'commit': commit, 'prior': p, 'new': n, 'fail': fail, 'flavour': 'plain'}
+                            count[0] += 1
+                            exc = EXCS[count[0] % len(EXCS)] if fail is not None else None
+                            yield {'fn': fn, 'handle': handle, 'commit': commit, 'prior': p, 'new': n, 'fail': fail, 'flavour': 'plain', 'exc': exc,
+                                   'schema': 'aux' if count[0] % 5 == 0 else None}
     rng = ctx.rng('flavours')
     for i in range(ctx.pick(1500, 20000)):
         n = rng.randint(0, 4)
         yield {'fn': rng.choice(['todb', 'appenddb']), 'handle': rng.choice(HANDLES), 'commit': rng.random() < 0.7, 'prior': rng.randint(0, 3),
-               'new': n, 'fail': rng.choice([None, None, None] + list(range(0, n + 2))), 'flavour': 'typed',
+               'new': n, 'fail': rng.choice([None, None, None] + list(range(0, n + 2))), 'flavour': 'typed', 'exc': rng.choice(EXCS),
+               'schema': rng.choice([None, None, 'aux']),
                'cells': [[rng.choice(CELLS), rng.choice(CELLS)] for _ in range(n)],
                'table': rng.choice(['t', 'my table', 'we"ird', 'select', 'T-1']), 'fields': rng.choice([['a', 'b'], ['a b', 'c"d'], ['select', 'from'], ['Ã©', 'Ã¼']])}
 
@@ -109,8 +115,31 @@ def judge(case, ctx):
     setup.executemany('INSERT INTO %s VALUES (?, ?)' % _q(tbl), prior)
     setup.commit()
     setup.close()
+    # schema-qualified loads: a second database file is ATTACHed as "aux" and holds a table of the same name; the load
+    # must touch aux.<table> only and leave main.<table> alone.  (A file-name handle cannot carry an attachment.)
+    schema = case.get('schema') if handle != 'filename' else None
+    aux_path = path + '.aux'
+    main_guard = [(900 + i, 'main-only-%d' % i) for i in range(2)]
+    if os.path.exists(aux_path):
+        os.remove(aux_path)
+    if schema:
+        ctx.seen('schema-qualified')
+        s2 = sqlite3.connect(aux_path)
+        s2.execute('CREATE TABLE %s (%s)' % (_q(tbl), ', '.join(_q(f) for f in fields)))
+        s2.executemany('INSERT INTO %s VALUES (?, ?)' % _q(tbl), prior)
+        s2.commit()
+        s2.close()
+        # main.<table> gets different contents, so a statement that goes to the wrong table is seen
+        s3 = sqlite3.connect(path)
+        s3.execute('DELETE FROM %s' % _q(tbl))
+        s3.executemany('INSERT INTO %s VALUES (?, ?)' % _q(tbl), main_guard)
+        s3.commit()
+        s3.close()
 
-    source = probes.FailingSource([list(fields)] + [list(r) for r in new], fail_at=fail)
+    Fault = probes.FAULT_TYPES[case.get('exc') or 'InjectedFault']
+    if fail is not None:
+        ctx.seen('exc:' + (case.get('exc') or 'InjectedFault'))
+    source = probes.FailingSource([list(fields)] + [list(r) for r in new], fail_at=fail, exc=Fault)
     out = []
     with probes.SqlTrace() as trace:
         conn = None
@@ -118,6 +147,8 @@ def judge(case, ctx):
             dbo = path
         else:
             conn = trace.connect(path, timeout=2)
+            if schema:
+                conn.execute('ATTACH DATABASE ? AS aux', (aux_path,))
             if handle == 'connection':
                 dbo = conn
             elif handle == 'cursor':
@@ -127,8 +158,11 @@ def judge(case, ctx):
         mark = len(trace.log)
         raised = None
         try:
-            getattr(petl, fn)(source, dbo, tbl, commit=commit)
-        except InjectedFault as e:
+            if schema:
+                getattr(petl, fn)(source, dbo, tbl, schema=schema, commit=commit)
+            else:
+                getattr(petl, fn)(source, dbo, tbl, commit=commit)
+        except Fault as e:
             raised = 'InjectedFault'
             del e
         except sqlite3.OperationalError as e:
@@ -138,7 +172,11 @@ def judge(case, ctx):
         stmts = [s for s in trace.log[mark:]]
         ctx.seen('sql-statements-traced', len(stmts))
         # ---- control has returned: what does a fresh connection see?
-        seen = _fresh_select(path, tbl)
+        seen = _fresh_select(aux_path if schema else path, tbl)
+        if schema:
+            main_now = _fresh_select(path, tbl)
+            if util.crows(main_now) != util.crows(main_guard):
+                out.append({'kind': 'schema-qualified-load-touched-the-unqualified-table', 'expected-main': main_guard, 'observed-main': main_now, 'statements': stmts[-8:]})
         loaded = (new if fn == 'todb' else prior + new)
         if fail is not None:
             if raised is None:
@@ -161,13 +199,13 @@ def judge(case, ctx):
         # ---- commit=False on the caller's connection: invisible until the caller commits, complete afterwards
         if fail is None and not commit and conn is not None and not out:
             conn.commit()
-            seen2 = _fresh_select(path, tbl)
+            seen2 = _fresh_select(aux_path if schema else path, tbl)
             if util.crows(seen2) != util.crows(loaded):
                 out.append({'kind': 'after-caller-commit-contents-wrong', 'expected': loaded, 'observed': seen2})
             else:
                 ctx.seen('commit=False-invisible-until-caller-commits')
         # ---- round trip through fromdb
-        if fail is None and commit and not out:
+        if fail is None and commit and not out and not schema:
             q = 'SELECT * FROM %s' % _q(tbl)
             got = util.attempt_rows(lambda: petl.fromdb(path, q))
             exp = [tuple(fields)] + loaded
